@@ -21,6 +21,7 @@ func init() {
 			"R2": "in ValidateToken: the call of the validation function is guarded by claim==true; every other return yields const false",
 			"R3": "a non-blocking select on ctx.Done() whose chosen branch returns false dominates the goroutine issuing the Get; the blocking select receiving the result has a ctx.Done() state",
 			"R4": "ValidateTokenOrDemote: `return true` guarded by err==nil and verdict; every `return false` is unreachable once the edges carrying claim==false and the blocks containing a may-demote call are cut",
+			"R6": "in the demotion wrapper (the non-stop function that invokes onDemote under 'the clearing unit saw the claim true'): every path from the false edge of that test to the return passes a blocking wait",
 			"R5": "validation loop: the edge verdict==false leads to a may-demote call followed by return",
 		},
 	})
@@ -252,6 +253,51 @@ func checkC04(c *Ctx) {
 	}
 	if n5 == 0 {
 		c.viol("R5", "background validation demotes on a negative verdict", nil, "no loop tests the validation function's verdict")
+	}
+
+	// ---- R6 -------------------------------------------------------------------------
+	// "whenever it returns false ... if it was leader, the demotion callback has been invoked": with
+	// two demotion causes at once (two ValidateTokenOrDemote calls, or one next to the heartbeat)
+	// exactly one of them invokes OnDemote (C08-R3); the other must not return before that
+	// invocation. In the demotion wrapper, the path on which the clearing unit reported "not this
+	// activation" therefore has to wait for the activation that is notifying.
+	nWrap := 0
+	for _, f := range m.Funcs {
+		if containsFn(m.StopUnits, topFunc(f)) || f.Parent() != nil {
+			continue
+		}
+		eachInstr(f, func(in ssa.Instruction) {
+			if !m.invokesFieldValue(in, m.OnDemote) {
+				return
+			}
+			// the test of the clearing unit's result that decides the invocation
+			for _, l := range m.GuardsAt(in) {
+				if !m.prevClaimLit(l, true) || l.If == nil {
+					continue
+				}
+				nWrap++
+				edge := 1 // the edge on which the result is false
+				if !m.litOf(l.If.Cond, true, l.If).Truth {
+					edge = 0
+				}
+				waits := true
+				m.explore(l.If.Block(), edge, 0, func(x ssa.Instruction, flag int) (int, bool) {
+					if m.isBlockingInstr(x) {
+						return 1, true
+					}
+					return flag, false
+				}, func(last ssa.Instruction, flag int) {
+					if flag == 0 {
+						waits = false
+					}
+				})
+				c.check(waits, "R6", "a demotion that lost against a concurrent one waits for its notification in "+shortFn(f), l.If,
+					"on the path where the clearing unit reports that another activation ended the term, a wait precedes the return: %v. Without it a ValidateTokenOrDemote that began while the instance led returns false while the OnDemote of the concurrent demotion has not been invoked yet (claim cleared, callback pending).", waits)
+			}
+		})
+	}
+	if nWrap == 0 {
+		c.undecided("R6", "demotion wrapper", nil, "no OnDemote invocation decided by the clearing unit's result found outside the stop units")
 	}
 }
 
